@@ -27,7 +27,7 @@ CHECKS = {
 
 CHECKS.update({
  "C01": ("exploration", "random + structured byte strings, field sweeps, pair enumeration; crash / allocation oracle (catch_unwind, counting allocator, watchdog)",
-         "Every buffer length 0..=32 with uniform and structured contents, every value of every narrow ME field, every 13-bit code, all ordered pairs of a pool of position reports; pattern-fill payloads (every 6-bit code / byte value repeated) under every type and BDS code; each accepted frame is rendered, its velocity computed, paired in both orders and fed to a long-lived tracker with hostile receiver positions/ranges; one aircraft heard 150 000 times and one on a 20 000-report flight. No panic, bounded allocation per decode+render; a suspected hang is re-run three times under a CPU-time limit with its tracker context.",
+         "Every buffer length 0..=32 with uniform and structured contents, every value of every narrow ME field, every 13-bit code, all ordered pairs of a pool of position reports; pattern-fill payloads (every 6-bit code / byte value repeated) under every type and BDS code; each accepted frame is rendered, its velocity computed, paired in both orders and fed to a long-lived tracker with hostile receiver positions/ranges; one aircraft heard 150 000 times and one on a 20 000-report flight. The harness installs a log subscriber that enables every call site (as the clients do), so the arguments of the libraries' log statements are evaluated. No panic, bounded allocation per decode+render; a suspected hang is re-run three times under a CPU-time limit with its tracker context.",
          "Absence of a crash on 2^112 frames cannot be established; a hang is reported as inconclusive (exit 2) by a 20 s watchdog.", "3 C01"),
  "C02": ("exploration", "exhaustive DF x length grid + exhaustive type-31 reserved/version grid + generated frames; acceptance predicate + prefix metamorphic relation",
          "All 32 DF codes at all lengths 0..=32, the complete subtype x version x reserved-group grid of type 31, structured frames truncated / exact / over-long; accepted iff the statement says so, right variant, checksum over exactly the frame, tail bytes without influence.",
@@ -45,10 +45,10 @@ CHECKS.update({
          "Histories of DF17/DF18 squitters of every payload kind (one in 16 with a flipped parity bit: decoded, checksum not zero) from 1-6 interleaved aircraft, non-squitter formats with the same addresses, waits and expiry; added flag, key set, message counts compared after every op; record(H) == record(H restricted to the aircraft); crowds of 700-2100 (70 000) distinct addresses incl. blocks of consecutive ones; one aircraft heard 90 000 (1.3 million) times; generated histories interpreted by the alloc-only build (child process).",
          "Frames are real bytes decoded by the library; histories up to 40 ops.", "4 C12"),
  "C13": ("exploration", "proptest histories vs reference model with reference great-circle distance and CPR encoder",
-         "Consistent flights, jumps around 100 km, positions at 0.99/1.01 x range, garbage CPR, repeated reports, eight receiver sites (poles, antimeridian, equator, two with the same latitude), the receiver moving within a history; publish/clear decision, stored reports (incl. altitude) and distance compared after every position report; deterministic flights across each of the 58 zone transitions in both hemispheres; crowds of 900 / 2500 (40 000) positioned aircraft.",
+         "Consistent flights, jumps around 100 km, positions at 0.99/1.01 x range, garbage CPR, repeated reports (also bit-identical ones), eight receiver sites (poles, antimeridian, equator, two with the same latitude), the receiver moving within a history; publish/clear decision, stored reports (incl. altitude), distance and the published position list compared after every position report; deterministic flights across each of the 58 zone transitions in both hemispheres; crowds of 900 / 2500 (40 000) positioned aircraft.",
          "get_position is the pairing function (decided by C05), either argument order accepted; thresholds within 1e-6 are don't-care.", "4 C13"),
  "C14": ("exploration", "proptest histories; latest-wins model + invariants after every op",
-         "Callsign/heading/speed/rate latest-wins; distance<=>position, all_position, details, track order, to_string checked for every record after every op; a 9 000 (40 000)-report flight of one aircraft whose track must equal the earlier publications; positioned crowds.",
+         "Callsign/heading/speed/rate latest-wins; distance<=>position, all_position, details, track order, to_string checked for every record after every op (histories include the last report of a parity re-sent bit for bit); a 9 000 (40 000)-report flight of one aircraft whose track must equal the earlier publications; positioned crowds.",
          "Lenient: entries wiped by a clear may be absent from the track; consecutive duplicate entries collapsed.", "4 C14"),
  "C15": ("exploration", "proptest histories with a back-dating hook; model with exact ages",
          "Advance/Prune ops with ages in 0.5 s steps on both sides of T (incl. T = 0 and T near u64::MAX); surviving key set, untouched survivors (also with a track of thousands of entries), re-added aircraft start empty, no re-add without expiry; crowds of 300-3000 (70 000) aircraft of which every second one expires in one call.",
@@ -63,10 +63,10 @@ CHECKS.update({
 
 CHECKS.update({
  "C16": ("exploration", "Hypothesis-generated feeds x segmentations x delays x connection drops (FIN and RST) against the real binaries (pty/TCP/log black box); expected line sequence oracle",
-         "Well-formed lines interleaved with 32 kinds of malformed line (every kind under every option set of both clients on every run), cut anywhere (also inside non-ASCII runs) with pauses on both sides of the 50 ms read timeout, dropped at arbitrary byte offsets with and without --retry-tcp; the well-formed lines must be processed exactly once in order by both clients, the clients must survive, exit cleanly on disconnect or reconnect (also after the server was unreachable for 12 s, attempts timing out, or gone for 1, 4 and 9 s, attempts refused) and keep their aircraft.",
+         "Well-formed lines interleaved with 32 kinds of malformed line (every kind under every option set of both clients on every run), cut anywhere (also inside non-ASCII runs) with pauses on both sides of the 50 ms read timeout, one silence of 2.6 s per case in front of a line that is then split, dropped at arbitrary byte offsets with and without --retry-tcp; the well-formed lines must be processed exactly once in order by both clients, the clients must survive, exit cleanly on disconnect or reconnect (also after the server was unreachable for 12 s, attempts timing out, or gone for 1, 4 and 9 s, attempts refused) and keep their aircraft.",
          "Timing is requested, not controlled: the verdict never depends on measured time. Failures that depend on kernel scheduling may not reproduce on every replay (replay retries 5 times).", "5 C16"),
  "C17": ("exploration", "Hypothesis-generated operator sessions (keys, key bursts, SGR mouse, resizes, traffic, expiry, option sets) on a real pty; liveness / exit status / termios / escape-sequence oracle; CLI invalid-value grammar",
-         "After every step the radar process must be alive without a panic; quit (q / Ctrl-C, also while waiting for the connection) must exit 0 with termios restored, mouse reporting off and the cursor visible; invalid option values (incl. arguments that are not UTF-8) must be clap usage errors. Swept on every run: the invalid-value grammar, every listed kind of line that is not a frame on every tab, every pair of selection/view keys as one burst on every tab, every listed --scale and receiver position (NaN, inf, poles), expiry on every tab, 400 aircraft, a silent / talking gpsd daemon while quitting, 150-key bursts on the waiting screen.",
+         "After every step the radar process must be alive without a panic; quit (q / Ctrl-C, also while waiting for the connection) must exit 0 with termios restored, mouse reporting off and the cursor visible; invalid option values (incl. arguments that are not UTF-8) must be clap usage errors. Swept on every run: the invalid-value grammar, every listed kind of line that is not a frame on every tab, a feed that never pauses (other protocol, all-zero frames, noise, frames) and a reconnected feed (quiet or busy) followed by keys, a resize and every way of quitting, every pair of selection/view keys as one burst on every tab, every listed --scale and receiver position (NaN, inf, poles), expiry on every tab, 400 aircraft, a silent / talking gpsd daemon while quitting, 150-key bursts on the waiting screen.",
          "Each step waits 120 ms for the event loop; the terminal is a pty driven by a minimal VT emulator, not a real terminal emulator.", "5 C17"),
  "C18": ("exploration", "Hypothesis-generated scenarios; screen (VT-emulated) vs tracker state computed by the real library (differential); map metamorphic relations (direction, proportionality, zoom, pan, reset)",
          "Airplanes tab rows and titles equal the tracker's records, Stats totals equal added events / peak count, markers lie on the correct side of the centre at proportional offsets (self-calibrated), view controls leave the tables unchanged and reset restores the map cell for cell; aircraft heard via DF18 or first heard with a status / target-state squitter; receiver position delivered by a gpsd server that also sends GST / SKY / no-fix reports; 'newly added' judged by the tracked set; expiry scenarios judged on radar's own logged processing times incl. a silent phase after which the screen must be empty without any key; thorough: a 10 050-frame aircraft.",
